@@ -227,7 +227,7 @@ def run_trivia_matrix(ctx: Ctx, modes, idx):
         text = gprint.grammar_text(rules)
         if ctx.tier == "quick":
             # C04 runs the full matrix in both optimized modes against the reference; here (quick) a thinner copy
-            calls = [c for c in calls if c[0] not in ("r5", "r6", "r8")][::2]
+            calls = [c for c in calls if c[0] not in ("r5", "r6", "r8", "r11")][::2]
         base = run_config(modes, "raw", {"text": text, "calls": calls, "gen": False})
         if base is None:
             ctx.count("wall_clock_timeout_inconclusive")
